@@ -5,7 +5,9 @@ import (
 	"fmt"
 	"reflect"
 	"runtime"
+	"sort"
 	"strings"
+	"time"
 	"unsafe"
 
 	"github.com/mlange-42/arche/ecs"
@@ -233,6 +235,10 @@ func (x *World) Exec(i int, op Op) map[string]interface{} {
 		res = guard(func(r *result) {
 			var en ecs.Entity
 			switch op.Api {
+			case "NonEscaping":
+				c := x.comps[op.Ids[0]]
+				en = newWithNonEscaping(w, c.id, ptrStaticByNum[op.Ids[0]], int64(op.Vals[0]))
+				clobberStack()
 			case "BuilderWith.New":
 				en = ecs.NewBuilderWith(w, x.components(op.Ids, op.Vals)...).New()
 			default:
@@ -361,6 +367,10 @@ func (x *World) Exec(i int, op Op) map[string]interface{} {
 		args["tgt"] = ent(tgt)
 		res = guard(func(r *result) {
 			switch op.Api {
+			case "NonEscaping":
+				c := x.comps[op.Ids[0]]
+				assignNonEscaping(w, e, c.id, ptrStaticByNum[op.Ids[0]], int64(op.Vals[0]))
+				clobberStack()
 			case "BuilderWith.Add":
 				b := ecs.NewBuilderWith(w, x.components(op.Ids, op.Vals)...)
 				if op.HasRel {
@@ -382,6 +392,13 @@ func (x *World) Exec(i int, op Op) map[string]interface{} {
 		res = guard(func(r *result) {
 			c := x.comps[op.C]
 			switch op.Api {
+			case "NonEscaping":
+				k, ok := ptrStaticByNum[op.C]
+				if !ok || c == nil || c.kind != "ptr" {
+					panic("verif: NonEscaping needs a static pointer component")
+				}
+				setNonEscaping(w, e, c.id, k, int64(op.V))
+				clobberStack()
 			case "Get":
 				p := w.Get(e, x.idOf(op.C))
 				if p == nil {
@@ -761,6 +778,9 @@ func (x *World) Exec(i int, op Op) map[string]interface{} {
 			args["dump"] = dumpRec(d)
 			w.LoadEntities(d)
 		})
+	case "GCCheck":
+		// Release check: payloads that no component references any more must become collectable.
+		res = guard(func(r *result) { line["gc"] = x.gcCheck() })
 	case "GC":
 		runtime.GC()
 	default:
@@ -839,4 +859,54 @@ func dumpRoundTrip(d *ecs.EntityDump) (*ecs.EntityDump, bool) {
 		return d, false
 	}
 	return &d2, true
+}
+
+// gcCheck forces collections and reports payload tokens that are neither referenced by a component
+// nor finalized, and were in that state at the previous checkpoint already.
+func (x *World) gcCheck() map[string]interface{} {
+	referenced := map[int64]bool{}
+	for _, e := range x.issued[x.epoch:] {
+		if !x.w.Alive(e) {
+			continue
+		}
+		m := x.w.Mask(e)
+		for _, n := range x.maskIDs(&m) {
+			c := x.comps[n]
+			if c == nil || !c.ptr {
+				continue
+			}
+			v := c.decode(x.w.Get(e, c.id))
+			if v > 0 {
+				referenced[int64(v)] = true
+				if c.kind == "slice" {
+					referenced[int64(v)+1] = true
+				}
+			}
+		}
+	}
+	for i := 0; i < 4; i++ {
+		runtime.GC()
+		time.Sleep(2 * time.Millisecond)
+	}
+	payMu.Lock()
+	pendingNow := map[int64]bool{}
+	created, finalized := 0, 0
+	for tok, n := range payCreated {
+		created += n
+		finalized += payFinalized[tok]
+		if !referenced[tok] && payFinalized[tok] < n {
+			pendingNow[tok] = true
+		}
+	}
+	payMu.Unlock()
+	leaked := []int{}
+	for tok := range pendingNow {
+		if x.pendingPrev[tok] {
+			leaked = append(leaked, int(tok))
+		}
+	}
+	sort.Ints(leaked)
+	x.pendingPrev = pendingNow
+	return map[string]interface{}{"created": created, "finalized": finalized, "referenced": len(referenced),
+		"pending": len(pendingNow), "leaked": leaked, "rawPtrCopies": int(ecs.VerifRawPtrCopies.Load())}
 }
